@@ -6,6 +6,8 @@ CONSTANTS
   LateAfter = FALSE
   StepSend = FALSE
   LeakPop = FALSE
+  CloseOnNone = FALSE
+  CutIsNone = FALSE
 INVARIANT TypeOK
 INVARIANT Inv_ServerAlive
 INVARIANT Inv_Others
